@@ -2,8 +2,10 @@
    three processors of src/series/data/inline_meta.rs (read, read_first_n, read_resampling/Sampler).
 
    The inner `loop` over the lines of one buffer is written as a one-line-at-a-time state
-   machine (RN: at a line boundary outside a section, R1: first marker line seen, R2: both
-   marker lines seen, collecting continuation lines). `break n` of the Rust loop is the state
+   machine (RN: at a line boundary outside a section, RS: the same while
+   skipping_over_corrupted_data is set, R1: first marker line seen, R2: both marker lines seen,
+   collecting continuation lines). The flag only matters at a line boundary: it is cleared when both
+   marker lines have been seen, and a buffer that starts with carried lines starts with a marker line. `break n` of the Rust loop is the state
    the machine is in when the lines of the buffer run out: needed_overlap = bytes of the
    lines held by the state. *)
 From Coq Require Import List NArith Bool Arith.
@@ -18,8 +20,8 @@ Close Scope N_scope. Open Scope nat_scope.
 Inductive pres (St:Type) := PCont (s:St) | PStop (s:St) | PPanic.
 Arguments PCont {St} s. Arguments PStop {St} s. Arguments PPanic {St}.
 
-Inductive rst := RN | R1 (a:slot) | R2 (a b:slot) (got:list slot).
-Definition held (st:rst) : nat := match st with RN => 0 | R1 _ => 1 | R2 _ _ got => 2 + length got end.
+Inductive rst := RN | RS | R1 (a:slot) | R2 (a b:slot) (got:list slot).
+Definition held (st:rst) : nat := match st with RN => 0 | RS => 0 | R1 _ => 1 | R2 _ _ got => 2 + length got end.
 
 (* outcome of scanning lines *)
 Inductive lres (St:Type) :=
@@ -51,11 +53,12 @@ Definition line_step (full:N) (st:rst) (acc:St) (x:slot) : lres St :=
                       end
            | _ => LPanic
            end
+  | RS => if is_marker x then LCont full (R1 x) acc else LCont full RS acc   (* dropped until the next section *)
   | R1 a =>
       if is_marker x
       then (if ncont p =? 0 then LCont (meta_read_ts p a x []) RN acc else LCont full (R2 a x []) acc)
       else match cb with
-           | CbAllow => LCont full RN acc       (* callback consents: both lines are dropped *)
+           | CbAllow => LCont full RS acc       (* callback consents: both lines are dropped, skipping starts *)
            | _ => LCorrupt acc
            end
   | R2 a b got =>
@@ -78,7 +81,7 @@ Inductive rres := RDone (acc:St) | RStopped (acc:St) | RCorrupt (acc:St) | RIo (
 
 (* the `while to_read > 0` loop. region = the file content after the header; n bounds the number
    of iterations (one per chunk). carry = the bytes moved to the front of the buffer. *)
-Fixpoint chunk_loop (n:nat) (chunk:N) (region:list byte) (pos to_read:N) (full:N) (carry:list byte) (acc:St) : rres :=
+Fixpoint chunk_loop (n:nat) (chunk:N) (region:list byte) (pos to_read:N) (full:N) (st0:rst) (carry:list byte) (acc:St) : rres :=
   match n with
   | O => RDone acc
   | S n' =>
@@ -87,11 +90,12 @@ Fixpoint chunk_loop (n:nat) (chunk:N) (region:list byte) (pos to_read:N) (full:N
       if (len region <? pos + read_size)%N then RIo acc else             (* read_exact fails *)
       if (chunk + BSgen.Consts.read_overlap_lines * N.of_nat L <? len carry + read_size)%N then RPanic else
       let buf := carry ++ slice pos (pos + read_size) region in
-      match scan_lines full RN acc (chunks L buf) with
+      match scan_lines full st0 acc (chunks L buf) with
       | LCont full' st' acc' =>
           let needed := (N.of_nat (held st' * L))%N in
           if (len buf <? needed)%N then RPanic else
-          chunk_loop n' chunk region (pos + read_size)%N (to_read - read_size)%N full' (drop (len buf - needed) buf) acc'
+          chunk_loop n' chunk region (pos + read_size)%N (to_read - read_size)%N full'
+            (match st' with RS => RS | _ => RN end) (drop (len buf - needed) buf) acc'
       | LStop a => RStopped a
       | LCorrupt a => RCorrupt a
       | LPanic => RPanic
@@ -103,7 +107,7 @@ Definition read_with_processor (region:list byte) (start end_ full:N) (acc:St) :
   if (end_ <? start)%N then RPanic else                (* seek.end - seek.start.raw_offset() *)
   let to_read := (end_ - start)%N in
   let chunk := next_multiple_of BSgen.Consts.read_chunk (N.of_nat L) in
-  chunk_loop (S (N.to_nat (N.min (to_read / chunk) (len region / chunk + 1)))) chunk region start to_read full [] acc.
+  chunk_loop (S (N.to_nat (N.min (to_read / chunk) (len region / chunk + 1)))) chunk region start to_read full RN [] acc.
 End RWP.
 Arguments RDone {St} acc. Arguments RStopped {St} acc. Arguments RCorrupt {St} acc. Arguments RIo {St} acc. Arguments RPanic {St}.
 
